@@ -686,6 +686,7 @@ class Models:
                     self.ceq_val[k, :],
                 )
                 <= options[Options.FEASIBILITY_TOL]
+                and pb.maxcv_last <= options[Options.FEASIBILITY_TOL]
             ):
                 raise FeasibleSuccess
 
@@ -700,6 +701,7 @@ class Models:
                     self.ceq_val[k, :],
                 )
                 <= options[Options.FEASIBILITY_TOL]
+                and pb.maxcv_last <= options[Options.FEASIBILITY_TOL]
             ):
                 raise TargetSuccess
 
